@@ -19,4 +19,67 @@ for t, n in (("u32", 7), ("f64", 11), ("s1", 18), ("tr", 10)):
     job("trunc_%s_stream" % t, "C05", n + 2, tier=("thorough" if t == "tr" else "quick"), extra="  unwindset ReadEntries 5\n  unwindset ::dec( 5\n")
 for t, n in (("u32", 7), ("f64", 11), ("s1", 18)):
     job("trunc_%s_fd" % t, "C05", n + 2, tier=("quick" if t == "u32" else "thorough"), extra="  unwindset nop::FdReader::Read(unsigned char *) 3\n  unwindset nop::FdReader::Read(void *, void *) 10\n")
+# ---------------------------------------------------------------------------------------------------------
+# Per-method contracts of StreamReader / StreamWriter over the (assumed) iostream model and of the byte primitives of
+# FdReader / FdWriter over the (assumed) POSIX model: a call succeeds exactly when the reference source / sink would
+# (stream good, no injected fault, enough data / room), a successful call delivers / appends exactly the next bytes and
+# advances the position by exactly that much, a failing call returns the documented code.  Enforced per function for
+# ALL stream states and positions, so conformance for every finite call sequence follows by induction (the bounded
+# lock-step lemmas above are only a cross-check).
+out.append("c #define VT_MAXLEN (1UL << 40)")
+out.append("c unsigned long vt_n;")
+out.append("c #define IS (this->stream_)")
+out.append("c #define IS_PRE (FRESH(this) && IS.len <= VT_MAXLEN && IS.pos <= IS.len && FRESHN(IS.src, IS.len) && IS.calls < (1UL << 62))")
+out.append("c #define IS_GOOD0 (!OLD(IS.eofbit) && !OLD(IS.failbit) && !OLD(IS.badbit) && OLD(IS.calls) != OLD(IS.bad_at))")
+out.append("c #define OS_PRE (FRESH(this) && IS.cap <= VT_MAXLEN && IS.pos <= IS.cap && FRESHN(IS.dst, IS.cap) && IS.calls < (1UL << 62))")
+out.append("c #define OS_GOOD0 (!OLD(IS.badbit) && OLD(IS.calls) != OLD(IS.bad_at))")
+def contract(key, clauses, name, props, extra=""):
+    out.append("contract %s\n%s" % (key, "".join("  %s\n" % c for c in clauses)))
+    out.append("job io_fn_%s\n  props %s\n  enforce %s\n%s  timeout 900\n" % (name, props, key, extra))
+SR = "nop::StreamReader<vt::SpecIStream>::"
+contract(SR + "Read(unsigned char *)", [
+    "requires IS_PRE && FRESH(byte)",
+    "assigns *byte, IS.pos, IS.eofbit, IS.failbit, IS.badbit, IS.calls",
+    "ensures (IS_GOOD0 && OLD(IS.pos) < IS.len) ==> (ERR(RET) == 0 && IS.pos == OLD(IS.pos) + 1 && *byte == IS.src[OLD(IS.pos)])",
+    "ensures !(IS_GOOD0 && OLD(IS.pos) < IS.len) ==> ERR(RET) == E_StreamError",
+    "ensures IS.pos <= IS.len"], "stream_read1", "C17 C05", "  unwind 3 complete one-character transfer\n")
+contract(SR + "Read(void *, void *)", [
+    "requires IS_PRE && vt_n <= 16 && FRESHN(begin, vt_n) && end == (char*)begin + vt_n",
+    "assigns __CPROVER_object_upto(begin, vt_n), IS.pos, IS.eofbit, IS.failbit, IS.badbit, IS.calls",
+    "ensures (IS_GOOD0 && vt_n <= IS.len - OLD(IS.pos)) ==> (ERR(RET) == 0 && IS.pos == OLD(IS.pos) + vt_n)",
+    "ensures (IS_GOOD0 && vt_n <= IS.len - OLD(IS.pos) && vt_k < vt_n) ==> ((unsigned char*)begin)[vt_k] == IS.src[OLD(IS.pos) + vt_k]",
+    "ensures !(IS_GOOD0 && vt_n <= IS.len - OLD(IS.pos)) ==> ERR(RET) == E_StreamError",
+    "ensures IS.pos <= IS.len"], "stream_read", "C17 C05", "  pre vt_n = nondet_ulong(); vt_k = nondet_ulong();\n  unwind 18 complete block length <= 16 (precondition)\n")
+contract(SR + "Skip(unsigned long)", [
+    "requires IS_PRE",
+    "assigns IS.pos, IS.eofbit, IS.failbit, IS.badbit, IS.calls",
+    "ensures (IS_GOOD0 && padding_bytes <= IS.len - OLD(IS.pos)) ==> (ERR(RET) == 0 && IS.pos == OLD(IS.pos) + padding_bytes)",
+    "ensures !(IS_GOOD0 && padding_bytes <= IS.len - OLD(IS.pos)) ==> ERR(RET) == E_StreamError",
+    "ensures IS.pos <= IS.len"], "stream_skip", "C17 C05")
+SW = "nop::StreamWriter<vt::SpecOStream>::"
+contract(SW + "Write(unsigned char)", [
+    "requires OS_PRE",
+    "assigns __CPROVER_object_whole(IS.dst), IS.pos, IS.badbit, IS.calls",
+    "ensures (OS_GOOD0 && OLD(IS.pos) < IS.cap) ==> (ERR(RET) == 0 && IS.pos == OLD(IS.pos) + 1 && IS.dst[OLD(IS.pos)] == byte)",
+    "ensures !(OS_GOOD0 && OLD(IS.pos) < IS.cap) ==> ERR(RET) == E_StreamError"], "stream_write1", "C17")
+contract(SW + "Write(const void *, const void *)", [
+    "requires OS_PRE && vt_n <= 16 && FRESHN(begin, vt_n) && end == (const char*)begin + vt_n",
+    "assigns __CPROVER_object_whole(IS.dst), IS.pos, IS.badbit, IS.calls",
+    "ensures (OS_GOOD0 && vt_n <= IS.cap - OLD(IS.pos)) ==> (ERR(RET) == 0 && IS.pos == OLD(IS.pos) + vt_n)",
+    "ensures (OS_GOOD0 && vt_n <= IS.cap - OLD(IS.pos) && vt_k < vt_n) ==> IS.dst[OLD(IS.pos) + vt_k] == ((const unsigned char*)begin)[vt_k]",
+    "ensures !(OS_GOOD0 && vt_n <= IS.cap - OLD(IS.pos)) ==> ERR(RET) == E_StreamError"], "stream_write", "C17", "  pre vt_n = nondet_ulong(); vt_k = nondet_ulong();\n  unwind 18 complete block length <= 16 (precondition)\n")
+# FdReader / FdWriter byte primitives over the POSIX model (one EINTR at a symbolic call index is transparent)
+out.append("c #define FD_EFF (OLD(vt_fd.calls) + (OLD(vt_fd.intr_at) == OLD(vt_fd.calls) ? 1UL : 0UL))")
+contract("nop::FdReader::Read(unsigned char *)", [
+    "requires FRESH(this) && this->fd_ == VT_FD_SRC && FRESH(byte) && vt_fd.len <= VT_MAXLEN && vt_fd.pos <= vt_fd.len && FRESHN(vt_fd.src, vt_fd.len) && vt_fd.calls < (1UL << 62)",
+    "assigns *byte, vt_fd.pos, vt_fd.calls, vt_errno_cell",
+    "ensures (OLD(vt_fd.fail_at) != FD_EFF && OLD(vt_fd.pos) < vt_fd.len) ==> (ERR(RET) == 0 && vt_fd.pos == OLD(vt_fd.pos) + 1 && *byte == vt_fd.src[OLD(vt_fd.pos)])",
+    "ensures (OLD(vt_fd.fail_at) != FD_EFF && OLD(vt_fd.pos) >= vt_fd.len) ==> (ERR(RET) == E_ReadLimitReached && vt_fd.pos == OLD(vt_fd.pos))",
+    "ensures OLD(vt_fd.fail_at) == FD_EFF ==> (ERR(RET) == E_IOError && vt_fd.pos == OLD(vt_fd.pos))"], "fd_read1", "C17 C05", "  unwind 4 complete the model interrupts at most one call\n")
+contract("nop::FdWriter::Write(unsigned char)", [
+    "requires FRESH(this) && this->fd_ == VT_FD_DST && vt_fd.cap <= VT_MAXLEN && vt_fd.wpos <= vt_fd.cap && FRESHN(vt_fd.dst, vt_fd.cap) && vt_fd.calls < (1UL << 62)",
+    "assigns __CPROVER_object_whole(vt_fd.dst), vt_fd.wpos, vt_fd.calls, vt_errno_cell",
+    "ensures (OLD(vt_fd.fail_at) != FD_EFF && OLD(vt_fd.wpos) < vt_fd.cap) ==> (ERR(RET) == 0 && vt_fd.wpos == OLD(vt_fd.wpos) + 1 && vt_fd.dst[OLD(vt_fd.wpos)] == byte)",
+    "ensures (OLD(vt_fd.fail_at) != FD_EFF && OLD(vt_fd.wpos) >= vt_fd.cap) ==> ERR(RET) == E_WriteLimitReached",
+    "ensures OLD(vt_fd.fail_at) == FD_EFF ==> ERR(RET) == E_IOError"], "fd_write1", "C17", "  unwind 4 complete the model interrupts at most one call\n")
 print("\n".join(out))
